@@ -134,10 +134,10 @@ pub fn check_stroke(c: &StrokeCase) -> CheckResult {
     let white = Source::Solid(SolidSource { r: 255, g: 255, b: 255, a: 255 });
     let path = c.path.build();
     let style = c.style.build();
-    let mut a = DrawTarget::new(c.w, c.h);
+    let mut a = blank_target(c.w, c.h);
     a.set_transform(&t);
     a.stroke(&path, &white, &style, &DrawOptions::new());
-    let mut b = DrawTarget::new(c.w, c.h);
+    let mut b = blank_target(c.w, c.h);
     let mut style2 = style.clone();
     style2.width *= s;
     style2.dash_offset *= s;
